@@ -10,7 +10,7 @@ import gen as G
 
 LEVEL = "proof"
 DRIVERS = ["driver_c19"]
-TRUSTED = ["model: coq/Model/Spectrum.v (fftfreq_idx, sort_k/fft_table, nonneg, doubled/double_rows, crop_pad, seg_go/overlap_split, seg_slices/min_len/mean_plan, "
+TRUSTED = ["model: coq/Model/Spectrum.v (fftfreq_idx, sort_k/fft_table, nonneg, doubled (k > 0)/double_rows, crop_pad, seg_go/overlap_split, seg_slices/min_len/mean_plan, "
            "compute_fft/psd/mean_psd over an abstract field) over Model/Restrict.v and Model/Slice.v; theorems: Proofs/SpectrumIndexProofs.v, SpectrumFieldProofs.v, SpectrumProofs.v, SpectrumExample.v (Qc instance)",
            "PARTIAL: np.fft.fft is a parameter `dft` of the model; its laws are hypotheses of the closed theorems (length_law; parseval_at x: sum|X_k|^2 = n sum x_j^2; "
            "hermitian_at x: |X_{n-k}|^2 = |X_k|^2), stated at the one signal they are used for; scipy.signal.windows.hamming is a parameter `window` (only its length is used)",
@@ -18,8 +18,8 @@ TRUSTED = ["model: coq/Model/Spectrum.v (fftfreq_idx, sort_k/fft_table, nonneg, 
            "harness: the DFT used by the oracle is a direct O(n^2) evaluation of sum x_j exp(-2 pi i jk/n) (not np.fft.fft); real-valued outputs are compared to a declared relative "
            "tolerance 1e-9; frequencies, ordering, doubling mask, scale, crop/pad and total power are compared as discrete quantities recovered from the output (integer k = f n/fs, "
            "psd_k fs n/|X_k|^2 snapped to {1,2}, inverse transform rounded to the integer samples, sum psd * fs rounded to the integer sum of squares)"]
-ASSUMPTIONS = ["sampling rate fs > 0; fs and 1e-6 are idealised as exact rationals. The doubling theorems need fs/(2n) > 1e-6; below that the mask is refuted in Coq "
-               "(C19_onesided_mask_low_rate_refuted) and the harness reports the replayed witness with key regime='fs/(2n)<=1e-6' (candidate known finding)",
+ASSUMPTIONS = ["sampling rate fs > 0 (frequencies k*fs/n order like k). The one-sided doubling theorems are unconditional on the repaired tree (mask index > 0); the pre-repair guard "
+               "fs/2 - 1e-6 is kept in the model only as history (mask_orig, C19_mask_orig_low_rate_refuted); the low-rate inputs (fs/(2n) <= 1e-6) stay in the generator as positive cases",
                "for even n the one-sided forms DROP the Nyquist bin (np.fft.fftfreq puts it at -fs/2): one-sided total = full total - Nyquist term (theorem C19_onesided_sum_even); "
                "the property only states which bins are doubled, so this is recorded and not reported",
                "_overlap_split is modelled on ticks with the step st = (1-overlap)*interval_size a whole number of ticks (a rational overlap a/b is the same model on times scaled by b); "
@@ -238,7 +238,6 @@ def check_single(nap, c, mout, res=None):
             V.append({"key": {"op": "compute_power_spectral_density", "full_range": full, "part": "raises"}, "what": "PSD raised on a valid single-epoch input",
                       "input": inp, "impl": repr(ex)[:300], "expected": "the PSD rows"})
             return V, D
-        fsn, fsd = frac(fs_eff)
         mm = mout[2].split("|") if len(mout) > 2 else None
         for ci, col in enumerate(cols):
             rows, y, X = oracle_psd(ts, col, s, e, n, fs_eff, full)
@@ -342,7 +341,8 @@ def single_cases(tier, seed):
 
 
 def low_rate_cases():
-    """sampling rates with fs/(2n) <= 1e-6 (one sample every 2^20 s): the regime where the absolute 1e-6 guard of the one-sided mask bites.
+    """sampling rates with fs/(2n) <= 1e-6 (one sample every 2^20 s): the regime where the pre-repair absolute 1e-6 guard of the one-sided mask failed
+    (fixed finding; these inputs are now positive cases).
     Dyadic spacing and a support of length m*2^20 s so that the inferred rate is exactly 2^-20 Hz."""
     SP = (2 ** 20) * 10 ** 9
     out = []
@@ -359,11 +359,9 @@ def run_single(nap, res, cases, tag="single"):
     for c in cases:
         l = model_lines_single(c)
         if not c["norm"]:
-            fs_eff = float(c["fs"]) if c["fs"] is not None else float(mk_sig(nap, c["ts"], c["cols"], c["support"]).rate)
             x = [t for t in c["ts"] if c["s"] <= t <= c["e"]]
             n1 = len(x) if c["n"] is None else c["n"]
-            fsn, fsd = frac(fs_eff)
-            l.append("mults\t%d\t%d\t%d\t%d" % (fsn, fsd, int(c["full"]), n1))
+            l.append("mults\t%d\t%d" % (int(c["full"]), n1))
         offs.append((len(lines), len(l)))
         lines.extend(l)
     mo = C.run_model(lines, driver="driver_c19")
